@@ -6,7 +6,10 @@ import os, re, subprocess
 import infra, runner
 
 def run_diagnose():
-    ok, out, _ = infra.lake_build(["rdsmodel"])
+    with infra.Lock("lake"):
+        ok, out, _ = infra.lake_build(["rdsmodel"], locked=True)
+        if ok and infra.RDSMODEL_COPY:
+            infra.pin_rdsmodel(os.path.dirname(infra.RDSMODEL_COPY))
     if not ok:
         return None
     r = subprocess.run([infra.rdsmodel(), "diagnose"], stdout=subprocess.PIPE, stderr=subprocess.PIPE, text=True)
